@@ -549,7 +549,8 @@ def _cond(r: Result | None) -> str | None:
 
 
 def read_glass(conn: Conn) -> dict[str, Any] | None:
-    st = getattr(conn, 'state', None)
+    ref = getattr(conn, 'state_ref', None)
+    st = ref() if ref is not None else None
     if st is None:
         return None
     try:
